@@ -19,8 +19,9 @@ static ssize_t _fast_append(MPT_STRUCT(slice) *sl, size_t nblk, const void *from
 	
 	add = esze;
 	take = 0;
-	while (add < avail && nblk--) {
+	while (add <= avail && nblk--) {
 		take += esze;
+		add += esze;
 	}
 	ptr = (void *) (buf + 1);
 	if (from) {
@@ -31,10 +32,10 @@ static ssize_t _fast_append(MPT_STRUCT(slice) *sl, size_t nblk, const void *from
 	sl->_len += take;
 	pos += take;
 	used = buf->_used;
-	if (used > pos) {
-		buf->_used = used;
+	if (pos > used) {
+		buf->_used = pos;
 	}
-	return take;
+	return take / esze;
 }
 
 /*!
